@@ -24,8 +24,9 @@ SHAPES = {
     'nodict': {'chars': 'a', 'char_w': 1, 'type_w': 1, 'dict_n': 4, 'char_ngrams': ['a'], 'type_ngrams': ['T'], 'n_dicts': 0, 'words': [], 'extra_weights': 2},
 }
 BOUNDS = {
-    'quick': {'file shapes': sorted(SHAPES), 'symbolic': 'every n-gram weight (i16), the bias, every dictionary weight and every dictionary membership mask', 'truncation': 'every cut point of every shape file (byte exact)'},
-    'thorough': {'file shapes': sorted(SHAPES), 'symbolic': 'as quick', 'truncation': 'every cut point'},
+    'quick': {'file shapes': sorted(SHAPES) + ['4 random shapes drawn from VERIF_SEED'], 'symbolic': 'every n-gram weight (i16), the bias, every dictionary weight and every dictionary membership mask', 'truncation': 'every cut point of every shape file (byte exact)'},
+    'thorough': {'file shapes': sorted(SHAPES) + ['40 random shapes drawn from VERIF_SEED (1..4 characters, windows 1..3 / 1..2, up to 4 char and 3 type n-grams, 0..3 dictionaries, up to 3 words)'],
+                 'symbolic': 'as quick', 'truncation': 'every cut point'},
 }
 OUTSIDE = ('file shapes outside the catalogue (more n-grams/dictionaries, tag slots with linear models); malformed files other than truncations (e.g. character index 0, n-grams longer than '
            '2*window+1) are outside the property; trailing bytes the reader never consumes')
@@ -170,11 +171,41 @@ def sx(v):
     return Int(z3.SignExt(16, v.t), 32, True)
 
 
+def random_file_shape(rnd):
+    """a KyTea file shape drawn from VERIF_SEED: characters, windows, unique n-grams over them, dictionaries and words"""
+    chars = ''.join(rnd.sample('abcあ1ア人', rnd.randint(1, 4)))
+    cw = rnd.randint(1, 3); tw = rnd.randint(1, 2)
+
+    def grams(alpha, maxlen, k):
+        out = []
+        for _ in range(k):
+            g = ''.join(rnd.choice(alpha) for _ in range(rnd.randint(1, maxlen)))
+            if g not in out:
+                out.append(g)
+        return out
+    return {'chars': chars, 'char_w': cw, 'type_w': tw, 'dict_n': rnd.randint(1, 4), 'char_ngrams': grams(chars, min(2 * cw, 3), rnd.randint(1, 4)),
+            'type_ngrams': grams('HRKTDO', min(2 * tw, 2), rnd.randint(1, 3)), 'n_dicts': rnd.randint(0, 3), 'words': grams(chars, 4, rnd.randint(0, 3)),
+            'extra_weights': rnd.randint(0, 2)}
+
+
+def all_shapes(tier, seed):
+    import random
+    sh = dict(SHAPES)
+    rnd = random.Random(seed * 17 + 5)
+    for k in range(4 if tier == 'quick' else 40):
+        d = random_file_shape(rnd)
+        if d['n_dicts'] == 0:
+            d['words'] = []
+        sh['random%02d' % k] = d
+    return sh
+
+
 def jobs(tier, seed):
     js = []
-    for name in sorted(SHAPES):
-        js.append({'name': 'conv/%s' % name, 'kind': 'conv', 'shape': name})
-        js.append({'name': 'trunc/%s' % name, 'kind': 'trunc', 'shape': name})
+    shs = all_shapes(tier, seed)
+    for name in sorted(shs):
+        js.append({'name': 'conv/%s' % name, 'kind': 'conv', 'shape': name, 'shape_def': shs[name]})
+        js.append({'name': 'trunc/%s' % name, 'kind': 'trunc', 'shape': name, 'shape_def': shs[name]})
     js.append({'name': 'reference-file', 'kind': 'ref'})
     return js
 
@@ -212,7 +243,7 @@ def make(e, progs, job):
                 rm = e.call('<Model as TryFrom<KyteaModel>>::try_from', [r.f[0].v])
                 e.check(rm.var == 'Ok', 'reference file is converted')
             return
-        sh = SHAPES[job['shape']]
+        sh = job.get('shape_def') or SHAPES[job['shape']]
         data, pay = write_file(e, sh)
         st['data'] = data
         if job['kind'] == 'trunc':
@@ -311,7 +342,7 @@ def confirm(sc, replay):
         if 'err' in r:
             return True, {'native': r}
         # recompute the expectation from the concrete file bytes with the python writer's layout
-        sh = SHAPES[sc['job']['shape']]
+        sh = sc['job'].get('shape_def') or SHAPES[sc['job']['shape']]
         bs = sc['bytes']
         # re-derive the payload by writing the file with a recording callback
         names = {}
